@@ -28,10 +28,17 @@ Proof.
       unfold T1, upd. destruct (Nat.eqb_spec (wparent s x) p) as [E1|E1]; [|exact Hrx].
       rewrite tget_tdel. destruct (Z.eqb_spec (wname s x) n) as [E2|E2]; [|rewrite <- E1; exact Hrx].
       exfalso. apply E. rewrite E1, E2 in Hrx. congruence. }
-  destruct o as [[p0|] n0 prim|p0 n0 width|o n0 w|o n0 w|o n0 w|w n0|w p0|w p0 n0]; cbn [step] in *; auto.
+  destruct o as [[p0|] n0 prim|p0 n0 width|p0 n0 width|o n0 w|o n0 w|o n0 w|w n0|w p0|w p0 n0]; cbn [step] in *; auto.
   - unfold new_logic. destruct (negb _); [exact Hreg|]. destruct (tmem _ _); [exact Hreg|].
     intros x Hx. cbn in Hx. unfold registered. cbn. rewrite upd_other; [apply Hreg; auto | specialize (WP x Hx); lia].
   - intros x Hx. cbn in Hx. unfold registered. cbn. rewrite upd_other; [apply Hreg; auto | specialize (WP x Hx); lia].
+  - unfold new_wire. destruct (negb _); [exact Hreg|]. destruct (tmem (owires s p0) n0) eqn:Hm; [exact Hreg|].
+    intros x Hx. cbn in Hx. unfold registered. cbn.
+    change (owires s p0 ++ [(n0, nwire s)]) with (tput (owires s p0) n0 (nwire s)).
+    unfold upd at 2 3. destruct (Nat.eqb_spec x (nwire s)) as [E|E].
+    + subst x. rewrite upd_same, tget_tput. unfold tmem in Hm. destruct (tget (owires s p0) n0); [discriminate|].
+      now rewrite Z.eqb_refl.
+    + apply tget_upd_tput_keep. apply Hreg. lia.
   - unfold new_wire. destruct (negb _); [exact Hreg|]. destruct (tmem (owires s p0) n0) eqn:Hm; [exact Hreg|].
     intros x Hx. cbn in Hx. unfold registered. cbn.
     change (owires s p0 ++ [(n0, nwire s)]) with (tput (owires s p0) n0 (nwire s)).
